@@ -61,7 +61,7 @@ func hasTwoThirds(fs []ir.Fact, T, x string) bool {
 func C03(p *ir.Program, r *report.R) {
 	c := C{p, r}
 	r.Floor = 70
-	r.Explain = "Decided: in ValidatorSet.VerifyCommit the tally increment is dominated by precommit!=nil, height/round/type equality, signature verification with the public key of the validator AT THE SAME SLOT over the sign-bytes of the same precommit and chain id, and block-id equality; the amount added is that validator's power; the nil-error return is dominated by the strict two-thirds normal form and the size/height tests. In VoteSet.addVote the admission call is dominated by index/address/size/height/round/type/lookup/signature guards; addVerifiedVote counts a validator once in the round total and once per block id and sets maj23 only at the first crossing; quorum expressions match the strict-two-thirds normal forms; sign-bytes cover chain id, height, round, type and the whole block id; every VerifyCommit call site uses the right set/height/id and propagates the error. ADDED after seeded-change testing: Fast sync: the block id handed to VerifyCommit is built from the first block itself (hash and part-set header), the height is the first block's, the commit is the second block's LastCommit, and CheckBlock/CommitBlock/ApplyBlock receive that same block, id and commit. Rounds 4-5: the block-id map key is lossless; votes are counted over the round's validators; the power added to the tallies, seen across the addVote/addVerifiedVote call, is the slot validator's. NOT decided: the signature scheme, int64 overflow beyond the quantifier's 2^62 bound, arrival-order behaviour beyond the single-count structure."
+	r.Explain = "Decided: in ValidatorSet.VerifyCommit the tally increment is dominated by precommit!=nil, height/round/type equality, signature verification with the public key of the validator AT THE SAME SLOT over the sign-bytes of the same precommit and chain id, and block-id equality; the amount added is that validator's power; the nil-error return is dominated by the strict two-thirds normal form and the size/height tests. In VoteSet.addVote the admission call is dominated by index/address/size/height/round/type/lookup/signature guards; addVerifiedVote counts a validator once in the round total and once per block id and sets maj23 only at the first crossing; quorum expressions match the strict-two-thirds normal forms; sign-bytes cover chain id, height, round, type and the whole block id; every VerifyCommit call site uses the right set/height/id and propagates the error. ADDED after seeded-change testing: Fast sync: the block id handed to VerifyCommit is built from the first block itself (hash and part-set header), the height is the first block's, the commit is the second block's LastCommit, and CheckBlock/CommitBlock/ApplyBlock receive that same block, id and commit. Rounds 4-5: the block-id map key is lossless; votes are counted over the round's validators; the power added to the tallies, seen across the addVote/addVerifiedVote call, is the slot validator's. Round 6: an ErrVoteConflictingVotes wrapped in the function that creates it is a lost identity too. NOT decided: the signature scheme, int64 overflow beyond the quantifier's 2^62 bound, arrival-order behaviour beyond the single-count structure."
 	r.Trusted = []string{"crypto.PubKey.VerifyBytes (signature scheme)", "ValidatorSet.TotalVotingPower / GetByIndex (C17 decides writers of the set)"}
 
 	precommitT := fmt.Sprint(c.ConstInt("types", "VoteTypePrecommit"))
